@@ -26,6 +26,9 @@ C13_Multiples == IsTicks =>
     /\ \A i \in 1..Cnt : CAbsL(T.tq[i] - T.n[i] * StepQ) <= Tol
     /\ \A i \in 1..(Cnt - 1) : T.n[i + 1] = T.n[i] + 1
 C13_InDomain == IsTicks => \A i \in 1..Cnt : T.lo - Tol <= T.tq[i] /\ T.tq[i] <= T.hi + Tol
+\* ... and beyond the ends by no more than float arithmetic accounts for (xlo, xhi: the excess of the outermost ticks in
+\* thousandths of four roundings per tick at the magnitude of the end points)
+C13_InDomainUpToFloatNoise == IsTicks => T.xlo <= 1000 /\ T.xhi <= 1000
 C13_Complete == (IsTicks /\ Cnt >= 1) =>
     /\ (T.n[1] - 1) * StepQ < T.lo + Tol
     /\ (T.n[Cnt] + 1) * StepQ > T.hi - Tol
